@@ -214,6 +214,7 @@ Record case := Case {
   c_sched : sched;
   c_stores : list store;
   c_labels : list Z;                      (* replication.location-labels *)
+  c_reject : list (Z * lval);             (* label-property reject-leader: the configured entries *)
   c_region : region;
   c_op : option impl_op;                  (* None only for scatter (operator creation failed / nothing to do) *)
   c_scatter : option scatter_obs
@@ -342,6 +343,9 @@ Definition check_sched (c : case) (io : impl_op) : verdict :=
   end.
 
 Definition check_case (c : case) : verdict :=
+  if negb (reject_flags_ok (c_reject c) (c_stores c))
+  then VBad "a store's reject-leader flag differs from the specification of CheckLabelProperty"
+  else
   match c_scatter c, c_op c with
   | Some so, _ => check_scatter c so
   | None, Some io => check_sched c io
